@@ -92,9 +92,10 @@ CHECKS = {
          "For every schema of the family that the real validator accepts, vertex types and interface flags, implements, implementer, properties with type text, edges with target / cardinality flags, parameters with type text and JSON default, "
          "and entrypoints are queried through the real SchemaAdapter (directly and through the Schema vertex); TLC compares each row bag with Introspect.tla. The repository's own check_adapter_invariants is run on SchemaAdapter.",
          "Docs strings are not compared. Bounded by the schema family."),
- "C10": (EX, "6/C10", "TLC enumerates spec/DirectiveFSM.tla (directive-grouping automaton of the parser; its invariants checked) and every reachable directive sequence, plus catalogues of malformed directives, document shapes and parameter literals, is parsed by the real frontend under catch_unwind",
+ "C10": (EX, "6/C10", "TLC enumerates spec/DirectiveFSM.tla (directive-grouping automaton of the parser; its invariants checked) and every reachable directive sequence, plus catalogues of malformed directives, document shapes and parameter literals, is parsed by the real frontend under catch_unwind; spec/Frontend.tla (phase-by-phase model of validation.rs / mod.rs / filters.rs / tags.rs) predicts acceptance or the set of error kinds for random and mutated well-formed queries (TLC judge JudgeFrontend)",
          "Every directive sequence of length <= 3 (thorough 4) over the 7 directives and an unknown one, at an edge field, a property field and the root field; ~80 malformed single directives; ~110 document shapes (0-3 operations of each kind, fragments, variable definitions, "
-         "operation directives, root selections, inline fragments, aliases, unterminated text); ~20 parameter literals at three positions. Verdict: Ok or a typed error, never a panic. The automaton's predicted parse-level class is compared and reported as MODEL-DRIFT only.",
+         "operation directives, root selections, inline fragments, aliases, unterminated text); ~20 parameter literals at three positions. Plus ~2 000 valid queries of the semantic universe and ~3 000 near-valid ones (gen/badq.py: 25 targeted mutations of valid queries; thorough x10). Verdict: Ok or a typed error, never a panic. The automaton's predicted parse-level class and "
+         "Frontend.tla's predicted outcome (accepted / exact set of error variants) are compared and reported as MODEL-DRIFT only - no listed property speaks about WHICH typed error is returned.",
          "Below GraphQL token level (arbitrary bytes) is async-graphql-parser's territory and is not enumerated; panic-freedom itself is observed, not model-checked."),
  "C24": (EX, "6/C24", "TLC checks Threads.tla (every interleaving of threads over once-cells and shared immutable data gives the sequential results); the real Arc<Schema> / Arc<IndexedQuery> are shared by 8 barrier-released threads in fresh processes and compared with the sequential run",
          "Model: 3 threads x 3 once-cells x 2 operations, all interleavings: results equal the sequential ones, each cell initialised exactly once and never rewritten. Code: in each of 24 (thorough 300) fresh processes 8 threads race to "
